@@ -1,5 +1,5 @@
 SPEC_PART = dict(
     props_file="C11_theta",
     legs=[dict(family="theta", focus="codec", oracles=["roundtrip_ok"], profiles=["debug", "release"],
-               mask=[1, 2, 4, 6, 7, 10, 11, 12, 13, 14], n_quick=160, n_thorough=1500, panic_is_violation=True)],
+               mask=[1, 2, 4, 6, 7, 10, 11, 12, 13, 14, 15], n_quick=160, n_thorough=1500, panic_is_violation=True)],
     trusted=[], assumptions=[], covers="theta: TBD")
